@@ -6,6 +6,7 @@ REGISTRY = {
     "C05": "c05",
     "C06": "core",
     "C07": "core",
+    "C08": "c08",
     "C10": "core",
     "C12": "c12",
     "C13": "core",
